@@ -200,6 +200,91 @@ def run(tier, seed):
           cases.append('(%s, %s, %s, %s, %s)' % (gl(prefix), gl(rpcs), C.glist(list(ex), C.gnat), C.glist(res['outcomes'], svc.g_outcome), svc.g_snapshot(res['snapshot'])))
           objs.append(obj)
 
+  # ---- focused stage: persisted algorithm state.  A hosted algorithm that keeps a counter in the study metadata (reads it from
+  # the study it is handed, writes counter + 1 back through its metadata delta, as the state-persisting designer policies do with
+  # their dumps).  Two workers' suggestion calls (and an early-stopping check) overlap in every way "A takes j steps, B completes,
+  # A finishes": the stored counter must be the number of algorithm calls, as in every serial order - a call that starts from
+  # a state read before it got the operation lock loses the other call's update.
+  from vizier import pythia as _pythia
+  from vizier import pyvizier as _vz
+  from vizier._src.service import pythia_service as _ps
+  NS_ = 'acc'
+
+  class _Counter(_pythia.Policy):
+    seen = []
+
+    def _next(self, request):
+      md = request.study_config.metadata.ns(NS_)
+      cur = int(md.get('cnt', default='0'))
+      _Counter.seen.append(cur)
+      delta = _vz.MetadataDelta()
+      delta.on_study.ns(NS_)['cnt'] = str(cur + 1)
+      return delta
+
+    def suggest(self, request):
+      delta = self._next(request)
+      return _pythia.SuggestDecision([_vz.TrialSuggestion({'x': 0.5}) for _ in range(request.count)], delta)
+
+    def early_stop(self, request):
+      return _pythia.EarlyStopDecisions([], self._next(request))
+
+    @property
+    def should_be_cached(self):
+      return False
+
+  class _CounterFactory(_pythia.PolicyFactory):
+    def __call__(self, problem, algorithm, supporter, study_name):
+      return _Counter()
+
+  def counter_of(serv_):
+    snap_ = svc.snapshot(serv_)
+    node_ = svcmon.nodes_of(snap_).get((1, 1))
+    vals = [kv[3] for kv in (node_['study']['md'] if node_ else []) if kv[0].lstrip(':') == NS_ and kv[1] == 'cnt']
+    return int(vals[0]) if vals else 0
+
+  acc_pairs = [(('SuggestTrials', 1, 1, 1, 1, ('deliver', [], [], [])), ('SuggestTrials', 1, 1, 2, 1, ('deliver', [], [], []))),
+               (('SuggestTrials', 1, 1, 1, 2, ('deliver', [], [], [])), ('SuggestTrials', 1, 1, 3, 1, ('deliver', [], [], []))),
+               (('SuggestTrials', 1, 1, 2, 1, ('deliver', [], [], [])), ('CheckEarlyStop', True, 1, 1, 1, ('decide', [], [], [])))]
+  for (a, b) in acc_pairs:
+    for backend in (('ram', 'sqlmem') if tier != 'quick' else ('ram',)):
+      prefix = [('CreateStudy', 1, 1, False, 'SS_ACTIVE', [(1, True)])]
+      if b[0] == 'CheckEarlyStop':
+        prefix.append(('SuggestTrials', 1, 1, 1, 1, ('deliver', [], [], [])))
+      seen_exec = set()
+      for first in (0, 1):
+        for j in range(0, 7):
+          serv_, holder_, proxy_ = svc.make_servicer(backend, recycle=True)
+          serv_.default_pythia_service = _ps.PythiaServicer(serv_, _CounterFactory())
+          for rpc in prefix:
+            svc.apply_rpc(serv_, holder_, rpc)
+          base = counter_of(serv_)
+          sched_ = conc.Sched()
+          conc.instrument(serv_, proxy_, sched_)
+          _Counter.seen = []
+          results, deadlock, executed = sched_.run([(lambda rpc=rpc: svc.apply_rpc(serv_, holder_, rpc)) for rpc in (a, b)],
+                                                   [first] * j + [1 - first] * 60 + [first] * 60)
+          proxy_.hook = None
+          ex = tuple(executed)
+          if ex in seen_exec:
+            continue
+          seen_exec.add(ex)
+          obj = {'backend': backend, 'prefix': prefix, 'rpcs': [a, b], 'schedule': list(ex), 'algorithm': 'counter kept in study metadata'}
+          rep.case({'rpcs': [a[:5], b[:5]], 'schedule': list(ex), 'stage': 'algorithm-state'}, 0 < j)
+          rep.count('algorithm_state_%s+%s' % (a[0], b[0]))
+          if deadlock:
+            concrete = True
+            rep.violation('deadlock: no runnable thread although calls are unfinished', obj)
+            continue
+          ncalls = len(_Counter.seen)
+          got = counter_of(serv_)
+          if any(o_[0] != 'Done' for o_ in results):
+            concrete = True
+            rep.violation('a suggestion call / early-stopping check fails solely because of the interleaving', dict(obj, outcomes=[o_[:2] for o_ in results]))
+          elif got != base + ncalls or sorted(_Counter.seen) != list(range(base, base + ncalls)):
+            concrete = True
+            rep.violation('lost update of persisted algorithm state: %d overlapping algorithm calls started from the stored counters %r and left %d '
+                          '(every serial order leaves %d)' % (ncalls, _Counter.seen, got, base + ncalls), dict(obj, outcomes=[o_[:2] for o_ in results]))
+
   bad = C.run_cases('C04', 'conc', svc.HDR + 'From VZ Require Import Model.Conc.\n', cases, 'conc_case_ok', shard=60)
   rep.disagreements += len(bad)
   for i in bad[:3]:
